@@ -1912,7 +1912,7 @@ def harvest_canonical(path: Path):
 def load_expr(spec: dict):
     pop = spec["population"]
     if pop == "tree":
-        return build_tree(spec["tree"])
+        return build_tree(spec["tree"], spec.get("symset", "base"), spec.get("evaluated", True))
     path = REPO / spec["file"]
     if pop == "source":
         for nm, val, _c, _l in harvest_source(path) or []:
@@ -2027,31 +2027,185 @@ def run_module(args) -> dict:
     return res
 
 
-# ----------------------------------------------------------------------------------------- general canonical trees
-TREE_SYMBOLS = [("x", "x"), ("y_1", r"\varepsilon_\text{r}"), ("t'", "t'")]
-_tree_syms: list = []
-UNARY = ("sqrt", "exp", "log", "sin")
-BINARY = ("add", "sub", "mul", "div", "pow")
-LEAVES = [("s", 0), ("s", 1), ("s", 2), ("n", 2, 1), ("n", 3, 1), ("n", -1, 1), ("n", -2, 1), ("n", 1, 2), ("n", -2, 3)]
+# ----------------------------------------------------------------------------------------- bounded tree populations
+# Symbol sets.  'base' is used by both checks.  Each check additionally gets a set whose names are unambiguous in ITS OWN
+# naming but collide in the other one (a printer that identifies symbols by the wrong name conflates them):
+#   samecode  (C18): two distinct library symbols with the SAME code name and different LaTeX names (one made by
+#                    clone_as_symbol(display_latex=...)), and a clone_as_symbol(subscript=...) of the first;
+#   samelatex (C17): two distinct library symbols with the SAME LaTeX name and different code names, and a subscript clone.
+SYMSET_DOC = {
+    "base": "x | y_1 (LaTeX \\varepsilon_\\text{r}) | t'",
+    "samecode": "t (LaTeX t) | clone_as_symbol(t, display_latex=\"t'\") (code t, LaTeX t') | clone_as_symbol(t, subscript=\"0\")",
+    "samelatex": "w (LaTeX \\omega) | omega (LaTeX \\omega) | clone_as_symbol(w, subscript=\"0\") (code w_0, LaTeX \\omega_{0})",
+}
+_symsets: dict = {}
 
 
-def tree_symbols():
-    if not _tree_syms:
+def tree_symbols(symset: str = "base"):
+    if symset not in _symsets:
         RS = R()["RSymbol"]
-        for code, tex in TREE_SYMBOLS:
-            _tree_syms.append(RS(code, display_latex=tex))
-    return _tree_syms
+        from symplyphysics.core.symbols.symbols import clone_as_symbol
+        if symset == "base":
+            _symsets[symset] = [RS("x", display_latex="x"), RS("y_1", display_latex=r"\varepsilon_\text{r}"),
+                                RS("t'", display_latex="t'")]
+        elif symset == "samecode":
+            t = RS("t", display_latex="t")
+            _symsets[symset] = [t, clone_as_symbol(t, display_latex="t'"), clone_as_symbol(t, subscript="0")]
+        elif symset == "samelatex":
+            w = RS("w", display_latex=r"\omega")
+            _symsets[symset] = [w, RS("omega", display_latex=r"\omega"), clone_as_symbol(w, subscript="0")]
+        else:
+            raise ValueError(symset)
+    return _symsets[symset]
 
 
-def build_tree(spec):
-    """Nested-tuple spec -> SymPy expression through SymPy's own (evaluating) constructors."""
+@dataclass(frozen=True)
+class Grammar:
+    name: str
+    leaves: tuple
+    unary: tuple
+    binary: tuple
+    evaluated: bool  # True: SymPy's evaluating constructors (canonical trees); False: evaluation disabled (source form)
+    doc: str = ""
+
+
+BINARY = ("add", "sub", "mul", "div", "pow")
+G_CANON = Grammar(
+    "canonical",
+    (("s", 0), ("s", 1), ("s", 2), ("n", 2, 1), ("n", 3, 1), ("n", -1, 1), ("n", -2, 1), ("n", 1, 2), ("n", -2, 3)),
+    ("sqrt", "exp", "log", "sin"), BINARY, True,
+    "{3 symbols, 2, 3, -1, -2, 1/2, -2/3, + - * / ^, sqrt, exp, log, sin} built by SymPy's evaluating constructors")
+G_SRC = Grammar(
+    "source-form",
+    (("s", 0), ("s", 1), ("s", 2), ("n", 2, 1), ("n", 3, 1), ("n", -1, 1), ("n", -2, 1), ("n", -3, 1), ("n", 1, 2),
+     ("n", -2, 3)),
+    ("neg", "sqrt", "sin"), BINARY, False,
+    "{3 symbols, 2, 3, -1, -2, -3, 1/2, -2/3, unary minus, + - * / ^, sqrt, sin} built with evaluation DISABLED "
+    "(sympy.evaluate(False), as the docs pipeline builds documented members); the original value is the tree rebuilt with "
+    "evaluation on")
+GRAMMARS = {g.name: g for g in (G_CANON, G_SRC)}
+
+_A, _B, _C = ("s", 0), ("s", 1), ("s", 2)
+
+
+def _n(p, q=1):
+    return ("n", p, q)
+
+
+def _neg(x):
+    return ("neg", x)
+
+
+# hand-written source-form shapes (sign parity, nested negatives, quotient / power bracketing); built unevaluated
+HAND_SHAPES = [
+    ("mul", _neg(_A), _neg(_B)),                                    # (-a)*(-b)
+    ("Mul", _n(-2), _n(-3), _A),                                    # flat Mul(-2, -3, a)
+    ("Mul", _n(-2), _n(-3), _n(-5), _A),                            # three negative numbers
+    ("Mul", _n(-2), _A, _n(-3), _B),
+    ("Mul", _n(-1), _n(-1), _A),
+    ("mul", ("mul", _n(-2), _A), ("mul", _n(-3), _B)),              # nested negative products
+    ("mul", ("mul", _n(-2), _A), ("mul", ("mul", _n(-3), _B), ("mul", _n(-1), _C))),
+    ("mul", _n(-2), ("mul", _n(-3), ("mul", _n(-2), _A))),
+    ("eq", _C, ("mul", _neg(_A), _neg(_B))),                        # F = -k*(-x)
+    ("eq", _C, ("mul", ("mul", _n(-1), _A), ("mul", _n(-1), _B))),
+    ("eq", _C, _neg(("mul", _A, _neg(_B)))),
+    ("mul", _neg(_A), ("mul", _neg(_B), _neg(_C))),                 # three negated symbols
+    ("mul", _n(-2), _neg(_A)),
+    ("mul", _A, _n(-2)),
+    ("mul", _A, _neg(_B)),
+    ("mul", _n(-1, 2), _neg(_A)),
+    ("mul", _n(-2, 3), ("mul", _n(-3), _A)),
+    ("sub", _A, _neg(_B)),                                          # a - (-b)
+    ("sub", _A, ("mul", _n(-2), _B)),
+    ("sub", _A, _n(-2)),
+    ("add", _A, _neg(_B)),
+    ("add", _A, _n(-2)),
+    _neg(_neg(_A)),                                                 # -(-a)
+    _neg(_neg(_neg(_A))),
+    _neg(("add", _A, _B)),
+    _neg(("sub", _A, _B)),
+    ("sub", _A, ("sub", _B, _C)),
+    ("sub", _A, ("add", _B, _C)),
+    ("pow", _neg(_A), _n(2)),                                       # (-a)^2
+    ("pow", _neg(_A), _n(3)),
+    _neg(("pow", _A, _n(2))),
+    ("pow", _n(-2), _A),                                            # (-2)^x
+    ("pow", _n(-2), _n(2)),
+    ("pow", _n(-1, 2), _A),
+    ("pow", _A, _neg(_B)),
+    ("pow", _A, _n(-2)),
+    ("pow", _A, _n(-1, 2)),
+    ("pow", _A, ("add", _B, _C)),
+    ("pow", _A, ("mul", _B, _C)),
+    ("pow", _A, ("div", _B, _C)),
+    ("pow", ("pow", _A, _B), _C),
+    ("pow", _A, ("pow", _B, _C)),
+    ("pow", ("mul", _A, _B), _C),
+    ("pow", ("div", _A, _B), _C),
+    ("pow", ("add", _A, _B), _n(2)),
+    ("div", _n(1), _neg(_A)),                                       # 1/(-a)
+    ("div", _neg(_A), _neg(_B)),                                    # -a/(-b)
+    _neg(("div", _A, _neg(_B))),
+    ("div", _A, _n(-2)),
+    ("div", _n(-2), _A),
+    ("div", _A, ("mul", _B, _C)),
+    ("div", _A, ("div", _B, _C)),
+    ("div", ("div", _A, _B), _C),
+    ("mul", ("div", _A, _B), _C),
+    ("mul", _A, ("div", _B, _C)),
+    ("div", ("mul", _A, _B), ("mul", _n(-2), _C)),
+    ("div", _A, ("add", _B, _C)),
+    ("div", ("add", _A, _B), ("sub", _A, _B)),
+    ("div", _A, ("pow", _B, _C)),
+    ("div", _n(1), ("sqrt", _A)),
+    ("add", _neg(_A), _B),                                          # sums with a negative leading term
+    ("add", _n(-2), _A),
+    ("Add", _neg(_A), _neg(_B), _C),
+    ("Add", _n(-2), _neg(_A), ("mul", _n(-3), _B)),
+    ("sub", _neg(_A), _B),
+    ("sub", _n(-1), _A),
+    ("add", ("mul", _n(-2), _A), ("mul", _n(-3), _B)),
+    ("mul", _A, ("add", _neg(_B), _C)),
+    ("mul", ("add", _neg(_A), _B), ("sub", _neg(_B), _C)),
+    ("mul", _neg(("add", _A, _B)), _neg(_C)),
+    ("sqrt", ("mul", _neg(_A), _neg(_B))),
+    ("sin", ("mul", _n(-2), _neg(_A))),
+    ("sin", _neg(_A)),
+    ("mul", _n(2), ("sin", _neg(_A))),
+    ("eq", ("sub", _B, _A), ("mul", _n(-2), ("sub", _A, _B))),
+    ("eq", ("div", _A, _B), _neg(("div", _neg(_C), _B))),
+    ("sub", _B, _A),                                                # the two look-alike symbols side by side
+    ("div", _B, _A),
+    ("add", ("mul", _n(2), _A), ("mul", _n(3), _B)),
+    ("mul", _A, ("mul", _B, _C)),
+    ("eq", _B, ("add", _A, _C)),
+]
+
+
+class _SkipTree(Exception):
+    pass
+
+
+def build_tree(spec, symset: str = "base", evaluated: bool = True):
+    """Nested-tuple spec -> SymPy expression; evaluated=True: through SymPy's evaluating constructors (canonical tree),
+    evaluated=False: with evaluation disabled, the way the docs pipeline builds a documented member (source form)."""
+    with sp.evaluate(evaluated):
+        return _build(spec, tree_symbols(symset), evaluated)
+
+
+def _build(spec, syms, ev):
     spec = tuple(spec)
     h = spec[0]
     if h == "s":
-        return tree_symbols()[spec[1]]
+        return syms[spec[1]]
     if h == "n":
         return sp.Rational(spec[1], spec[2])
-    a = build_tree(spec[1])
+    if h in ("Mul", "Add"):
+        args = [_build(a, syms, ev) for a in spec[1:]]
+        return (sp.Mul if h == "Mul" else sp.Add)(*args, evaluate=ev)
+    a = _build(spec[1], syms, ev)
+    if h == "neg":
+        return -a
     if h == "sqrt":
         return sp.sqrt(a)
     if h == "exp":
@@ -2060,7 +2214,9 @@ def build_tree(spec):
         return sp.log(a)
     if h == "sin":
         return sp.sin(a)
-    b = build_tree(spec[2])
+    b = _build(spec[2], syms, ev)
+    if h == "eq":
+        return sp.Eq(a, b, evaluate=False)
     if h == "add":
         return a + b
     if h == "sub":
@@ -2070,70 +2226,80 @@ def build_tree(spec):
     if h == "div":
         return a / b
     if h == "pow":
+        if ev and a.is_Number and b.is_Number and (abs(b) > 64 or (b.is_Rational and b.q > 64)):
+            raise _SkipTree("number tower")  # CPython cannot print / SymPy cannot finish such integers
         return a ** b
     raise ValueError(h)
 
 
-def tree_count(depth: int) -> int:
-    c = len(LEAVES)
+def _finite(e) -> bool:
+    return not (e.has(sp.zoo, sp.nan, sp.oo, -sp.oo) or any(abs(n.p).bit_length() > 2000 or n.q.bit_length() > 2000
+                                                            for n in e.atoms(sp.Rational)))
+
+
+def tree_count(g: Grammar, depth: int) -> int:
+    c = len(g.leaves)
     for _ in range(depth - 1):
-        c = len(LEAVES) + len(UNARY) * c + len(BINARY) * c * c
+        c = len(g.leaves) + len(g.unary) * c + len(g.binary) * c * c
     return c
 
 
-def tree_decode(index: int, depth: int):
-    """The index-th tree of depth <= depth in the fixed enumeration (leaves, unary, binary)."""
-    nl = len(LEAVES)
+def tree_decode(g: Grammar, index: int, depth: int):
+    """The index-th tree of depth <= depth in the fixed enumeration (leaves, unary, binary) of grammar g."""
+    nl = len(g.leaves)
     if index < nl:
-        return LEAVES[index]
+        return g.leaves[index]
     if depth <= 1:
         raise IndexError(index)
-    c = tree_count(depth - 1)
+    c = tree_count(g, depth - 1)
     index -= nl
-    if index < len(UNARY) * c:
-        return (UNARY[index // c], tree_decode(index % c, depth - 1))
-    index -= len(UNARY) * c
+    if index < len(g.unary) * c:
+        return (g.unary[index // c], tree_decode(g, index % c, depth - 1))
+    index -= len(g.unary) * c
     op, rest = divmod(index, c * c)
     i, j = divmod(rest, c)
-    return (BINARY[op], tree_decode(i, depth - 1), tree_decode(j, depth - 1))
+    return (g.binary[op], tree_decode(g, i, depth - 1), tree_decode(g, j, depth - 1))
 
 
-def tree_indices(depth: int, cap: int, seed: int) -> tuple[list[int], int]:
-    total = tree_count(depth)
+def tree_indices(g: Grammar, depth: int, cap: int, seed: int, salt: int = 0) -> tuple[list[int], int]:
+    total = tree_count(g, depth)
     if total <= cap:
         return list(range(total)), total
-    rng = random.Random(seed * 1000003 + depth)
-    small = tree_count(2)  # all trees up to depth 2 are always included
-    picked = set(range(small))
+    rng = random.Random(seed * 1000003 + depth * 101 + salt)
+    small = tree_count(g, 2)  # all trees up to depth 2 are always included
+    picked = set(range(min(small, cap)))
     while len(picked) < cap:
         picked.add(rng.randrange(total))
     return sorted(picked), total
 
 
 def run_trees(args) -> dict:
-    """Worker: validate a chunk of general canonical trees (bounded population)."""
-    kind, pid, depth, indices = args
-    res = {"count": 0, "failures": [], "oor": [], "skipped": 0, "trivial": 0, "backends": {}, "dups": 0}
+    """Worker: validate a chunk of one bounded tree population.
+    args = (kind, pid, grammar name | 'hand', symset, depth, items); items are enumeration indices (or shape numbers)."""
+    kind, pid, gname, symset, depth, items = args
+    res = {"group": gname, "symset": symset, "count": 0, "failures": [], "oor": [], "skipped": 0, "trivial": 0,
+           "backends": {}, "dups": 0}
     seen = set()
-    for ix in indices:
-        spec = tree_decode(ix, depth)
+    g = GRAMMARS.get(gname)
+    evaluated = g.evaluated if g else False
+    for ix in items:
+        spec = HAND_SHAPES[ix] if g is None else tree_decode(g, ix, depth)
         try:
-            with sp.evaluate(True):
-                e = build_tree(spec)
+            value = build_tree(spec, symset, True)  # the mathematical value (guards against non-finite / huge numbers)
+            if not _finite(value):
+                raise _SkipTree("non-finite")
+            e = value if evaluated else build_tree(spec, symset, False)
         except Exception:
             res["skipped"] += 1
-            continue
-        if e.has(sp.zoo, sp.nan, sp.oo, -sp.oo) or any(abs(n.p).bit_length() > 2000 or n.q.bit_length() > 2000
-                                                       for n in e.atoms(sp.Rational)):
-            res["skipped"] += 1  # not a finite canonical expression / integers beyond CPython's int->str limit
             continue
         if e in seen:
             res["dups"] += 1
             continue
         seen.add(e)
-        name = f"{pid}/tree/d{depth}#{ix}"
+        name = f"{pid}/tree/{gname}:{symset}/" + (f"d{depth}#{ix}" if g else f"shape#{ix}")
+        rspec = {"population": "tree", "tree": spec, "symset": symset, "evaluated": evaluated}
         try:
-            r = validate(kind, e, name, f"tree:{spec!r}", {"population": "tree", "tree": spec})
+            r = validate(kind, e, name, f"tree:{gname}:{symset}:{spec!r}", rspec)
         except Exception as ex:
             res["oor"].append((name, f"engine error {type(ex).__name__}: {str(ex)[:200]}"))
             res["errors"] = res.get("errors", 0) + 1
@@ -2179,10 +2345,22 @@ def run_property(report, pid: str, kind: str):
     files = [str(p.relative_to(REPO)) for p in catalogue_files()]
     nproc = max(1, min(16, os.cpu_count() or 1, int(os.environ.get("VERIF_PROCS", "16"))))
     depth = 3 if tier == "quick" else 4
-    cap = 20000 if tier == "quick" else 100000
-    indices, total = tree_indices(depth, cap, core_seed())
-    chunk = max(50, len(indices) // (nproc * 8))
-    tree_tasks = [(kind, pid, depth, indices[i:i + chunk]) for i in range(0, len(indices), chunk)]
+    quick = tier == "quick"
+    alt = "samecode" if kind == "latex" else "samelatex"  # names unambiguous in this check's own naming
+    plan = [  # (grammar, symset, sample size)
+        (G_CANON, "base", 20000 if quick else 100000),
+        (G_CANON, alt, 5000 if quick else 20000),
+        (G_SRC, "base", 20000 if quick else 100000),
+        (G_SRC, alt, 5000 if quick else 20000),
+    ]
+    tree_tasks, plan_info = [], {}
+    for k, (g, symset, cap) in enumerate(plan):
+        indices, total = tree_indices(g, depth, cap, core_seed(), salt=k)
+        plan_info[(g.name, symset)] = (len(indices), total)
+        chunk = max(50, len(indices) // (nproc * 4))
+        tree_tasks += [(kind, pid, g.name, symset, depth, indices[i:i + chunk]) for i in range(0, len(indices), chunk)]
+    for symset in ("base", alt):
+        tree_tasks.append((kind, pid, "hand", symset, 0, list(range(len(HAND_SHAPES)))))
     ctx = mp.get_context("fork")
     with ctx.Pool(nproc) as pool:
         mod_async = pool.map_async(run_module, [(kind, pid, f) for f in files], chunksize=4)
@@ -2211,18 +2389,35 @@ def run_property(report, pid: str, kind: str):
             report.add_out_of_reach(nm, why)
         for f in r["faults"]:
             report.fault(f)
-    tcount = sum(r["count"] for r in tree_results)
-    tfail = [f for r in tree_results for f in r["failures"]]
     toor = [o for r in tree_results for o in r["oor"]]
-    tback: dict = {}
-    for r in tree_results:
-        for k, v in r["backends"].items():
-            tback[k] = tback.get(k, 0) + v
-    report.add_bounded(
-        f"general canonical trees over {{3 symbols displayed {[c for c, _ in TREE_SYMBOLS]}, 2, 3, -1, -2, 1/2, -2/3, + - * / ^, "
-        f"sqrt, exp, log, sin}} built by SymPy's constructors; obligation read({kind}_str(e)) == e for all values, per tree",
-        f"depth <= {depth}; {len(indices)} of {total} trees (all of depth <= 2, the rest sampled with VERIF_SEED={core_seed()})",
-        tcount, not tfail, tfail)
+    tree_pop = {}
+    for gname, what in (("canonical", G_CANON.doc), ("source-form", G_SRC.doc),
+                        ("hand", "hand-written source-form shapes built with evaluation disabled: products with 2 and 3 "
+                                 "negative numeric factors, nested negative products, a - (-b), -(-a), (-a)^2, (-2)^x, "
+                                 "1/(-a), -a/(-b), sums with negative leading terms, quotient/power nestings")):
+        rs = [r for r in tree_results if r["group"] == gname]
+        cnt = sum(r["count"] for r in rs)
+        fails = [f for r in rs for f in r["failures"]]
+        back: dict = {}
+        for r in rs:
+            for k, v in r["backends"].items():
+                back[k] = back.get(k, 0) + v
+        if gname == "hand":
+            bound = f"{len(HAND_SHAPES)} fixed shapes x symbol sets base, {alt}"
+            title = "source-form shapes: " + what
+        else:
+            parts = [f"{n} of {tot} trees over symbol set '{ss}'" for (gn, ss), (n, tot) in plan_info.items() if gn == gname]
+            bound = (f"depth <= {depth}; " + "; ".join(parts) + f" (all of depth <= 2, the rest sampled with "
+                     f"VERIF_SEED={core_seed()})")
+            title = f"general {gname} trees over " + what
+        report.add_bounded(
+            title + f"; symbol sets: base = {SYMSET_DOC['base']}; {alt} = {SYMSET_DOC[alt]}; obligation "
+            f"read({kind}_str(e)) == e for all values, per tree", bound, cnt, not fails, fails)
+        tree_pop[gname] = {"validated": cnt, "skipped_non_finite": sum(r["skipped"] for r in rs),
+                           "duplicates_in_chunk": sum(r["dups"] for r in rs),
+                           "out_of_reach": sum(len(r["oor"]) for r in rs),
+                           "identical_normal_form": sum(r["trivial"] for r in rs), "backends": back,
+                           "by_symset": {ss: sum(r["count"] for r in rs if r["symset"] == ss) for ss in ("base", alt)}}
     for nm, why in toor[:40]:
         report.add_out_of_reach(nm, why)
     nerr = sum(r.get("errors", 0) for r in tree_results)
@@ -2232,12 +2427,8 @@ def run_property(report, pid: str, kind: str):
         "catalogue_source_form_renderings": counts["source"],
         "catalogue_canonical_form_renderings": counts["canonical"],
         "catalogue_identical_normal_form": trivial,
-        "tree_renderings_validated": tcount,
-        "tree_non_finite_skipped": sum(r["skipped"] for r in tree_results),
-        "tree_duplicates_in_chunk": sum(r["dups"] for r in tree_results),
+        "trees": tree_pop,
         "tree_out_of_reach": len(toor),
-        "tree_identical_normal_form": sum(r["trivial"] for r in tree_results),
-        "tree_backends": tback,
         "catalogue_out_of_reach": len(report.out_of_reach) - min(len(toor), 40),
     }
     outside["disagree"].sort(key=lambda d: d["member"])
